@@ -795,3 +795,67 @@ def coords_rebound_only(ctx, rule: str, consequence: str):
            construct="coordinate arrays (tdgl.device)")
     if n < 60:
         raise AnalysisError(f"only {n} geometry functions scanned")
+
+
+def no_stateful_closures(ctx, rule: str, consequence: str):
+    """No nested function or lambda (outside the plotting modules) modifies a variable it captures from the enclosing function:
+    a callable stored on an object (`self.current_func = ...`) that mutates captured storage carries hidden state from one
+    call to the next."""
+    repo = ctx.repo
+    n = 0
+    for f in repo.all_functions():
+        if f.module.name.startswith(("tdgl.test", "tdgl.visualization")) or f.module.name == "tdgl.visualize":
+            continue
+        nested = []
+        if f.parent is not None:
+            nested.append(f.node)
+        for x in own_nodes(f.node):
+            if isinstance(x, ast.Lambda):
+                nested.append(x)
+        for fn in nested:
+            n += 1
+            a = fn.args
+            locs = {p_.arg for p_ in a.args + a.kwonlyargs + a.posonlyargs}
+            if a.vararg:
+                locs.add(a.vararg.arg)
+            if a.kwarg:
+                locs.add(a.kwarg.arg)
+            body_nodes = list(own_nodes(fn)) if isinstance(fn, ast.FunctionDef) else list(ast.walk(fn.body))
+            nonloc = set()
+            for x in body_nodes:
+                if isinstance(x, (ast.Nonlocal, ast.Global)):
+                    nonloc |= set(x.names)
+            for x in body_nodes:
+                if isinstance(x, ast.Name) and isinstance(x.ctx, ast.Store) and x.id not in nonloc:
+                    locs.add(x.id)
+                if isinstance(x, (ast.ListComp, ast.SetComp, ast.DictComp, ast.GeneratorExp)):
+                    for g in x.generators:
+                        for y in ast.walk(g.target):
+                            if isinstance(y, ast.Name):
+                                locs.add(y.id)
+            bad = []
+            for x in body_nodes:
+                if isinstance(x, (ast.Subscript, ast.Attribute)) and isinstance(x.ctx, (ast.Store, ast.Del)) and isinstance(x.value, ast.Name) \
+                        and x.value.id not in locs and x.value.id not in ("self", "cls"):
+                    bad.append((x, f"{norm(x)} = ..."))
+                if isinstance(x, ast.Call) and isinstance(x.func, ast.Attribute) and x.func.attr in CONTAINER_MUTATORS \
+                        and isinstance(x.func.value, ast.Name) and x.func.value.id not in locs and x.func.value.id not in ("self", "cls"):
+                    # a module-level logger / registry is not a captured local: only names bound in an enclosing function count
+                    enc = f.parent if f.parent is not None and isinstance(fn, ast.FunctionDef) else f
+                    bound = {y.id for y in ast.walk(enc.node) if isinstance(y, ast.Name) and isinstance(y.ctx, ast.Store)} | \
+                            {p_.arg for p_ in enc.node.args.args + enc.node.args.kwonlyargs}
+                    if x.func.value.id in bound:
+                        bad.append((x, norm(x)[:60]))
+                if isinstance(x, ast.Name) and isinstance(x.ctx, ast.Store) and x.id in nonloc:
+                    bad.append((x, f"nonlocal {x.id} rebound"))
+            for node, what in bad:
+                nm = getattr(fn, "name", "<lambda>")
+                ctx.ob(rule, f"{f.qual}: nested `{nm}` modifies captured `{what}`", False, where=f.fq,
+                       construct=f"stateful closure `{nm}` in {f.qual}: {what}", loc=loc(f, node),
+                       message=f"the nested callable `{nm}` in {f.qual} modifies a variable of the enclosing function (L{node.lineno}: {what}): "
+                               f"it keeps state from one call to the next",
+                       consequence=consequence)
+    ctx.ob(rule, f"{n} nested functions / lambdas scanned: none modifies a captured variable", True, detail={"closures": n}, where="package",
+           construct="stateful closures (package)")
+    if n < 10:
+        raise AnalysisError(f"only {n} nested callables found")
